@@ -53,6 +53,11 @@ def _strategy(shapes):
             zb = za + draw(gen.arr((n,), 0.1, 4.0))
         mu, sd = nu / lam, 1.0 / np.sqrt(lam)
         m0, s0 = (mu, sd) if per else (mu[:1], sd[:1])
+        coincide = draw(st.sampled_from([None] * 8 + ["lower_at_mean", "upper_at_mean"]))
+        if coincide == "lower_at_mean":
+            zb, za = zb - za, np.zeros_like(za)
+        elif coincide == "upper_at_mean":
+            za, zb = za - zb, np.zeros_like(zb)
         a = m0 + za * s0
         b = m0 + zb * s0
         if not per and (np.any(np.abs((a - mu) / sd) > 12.0) or np.any(np.abs((b - mu) / sd) > 12.0)):
